@@ -123,12 +123,19 @@ META['C16'] = dict(
   note=("Trusted: Lean kernel + standard axioms; hand-written model of participle v2.0.0 for this grammar (rule patterns, struct tags, elided types regenerated from asm/asm.go and pinned); the documented grammar transcribed by hand twice (Lean spec, Go oracle); harness. "
         "dev/asm preprocessor not modelled."))
 
+META['C12'] = dict(
+  text=("Kernel-checked for EVERY save pattern in the safe language (reads; exclusive temporary file; any number of writes, syncs, closes; one rename over the record; reads), every crash point k, every directory content and value: the record reads as the complete old or the complete new content, "
+        "all other records are untouched (safe_save_is_crash_atomic, by phase induction over the operation string), and a fresh process continues from the old or the new state, never a silent restart (safe_save_session_continues); the pre-fix pattern (O_TRUNC open, write) is proved torn at the first crash point and to restart silently. "
+        "Tie: the real engine saves a generated session history on the real fs store in a child process under strace; the system calls of the save are abstracted to the operation string, the model's pattern check is evaluated on it (a different pattern breaks the obligation), and the process is KILLED on entry to every call of the save in turn; "
+        "after each kill the record (decoded) and the next request served by a fresh process are compared with the model's prediction and with reference runs. Holds since one fix: commit (temp file + fsync + rename)."),
+  note=("Trusted: Lean kernel + standard axioms; the operation-level crash model (process death at system-call boundaries; rename atomic); strace-based injection and the harness's call abstraction; CBOR as a parameter. Power-loss durability beyond fsync ordering is not modelled. gdbm/pg backends are out of scope of C12."))
+
 NOT_APPLICABLE = {
 
 
 
  'C09': 'not claimed yet: under construction',
- 'C12': 'not claimed yet: under construction',
+
 
  'C19': 'not claimed yet: under construction',
 }
